@@ -53,3 +53,14 @@ Definition over_run_now := run (cfg_now 1 in4) sched_over (init (cfg_now 1 in4))
 Definition in7 : input :=
   [IBlock [1%Z; 2%Z]; IBlock []; IBlock [3%Z]; IBlock [4%Z; 5%Z]; IBlock []; IBlock [6%Z]; IBlock [7%Z]].
 Definition full_run := scan_all (cfg_now 3 in7) 200 20 (init (cfg_now 3 in7)).
+
+(* Close while the reader goroutine is about to call / is inside Read: every other goroutine has
+   finished or waits for the reader, so Close (wg.Wait) returns only when that Read returns *)
+Definition sched_close_in_read : list label :=
+  [LApi CScan; LRd false; LRd false; LRd false; LWk 0 false; LWk 0 false; LSe false; LSe false; LSe false;
+   LCo; LCo;                   (* Scan -> true 1 *)
+   LRd false;                  (* reader: loop test passed, next: readFileBlock *)
+   LApi CCloseCall;            (* closed, cancelled, wg.Wait *)
+   LSe true].                  (* serializer: Done branch *)
+Definition close_in_read_state : state :=
+  Eval vm_compute in fst (run (cfg_now 1 blocks5) sched_close_in_read (init (cfg_now 1 blocks5))).
